@@ -96,12 +96,20 @@ def check(case):
     desc = f'{ {k: v for k, v in case.items()} }'
     try:
         if case.get('eager'):
+            base = up
+            if case.get('pre') is not None:
+                # eager caching on top of a partly filled lazy cache: still a complete snapshot at call time
+                base = up.cache()
+                for q in case['pre']:
+                    base[q % n]
             try:
-                ds = up.cache(lazy=False)
+                ds = base.cache(lazy=False)
             except Exception as e:
                 raise Violation('eager-cache-raised', f'{desc}\ncache(lazy=False) raised {type(e).__name__}: '
                                                       f'{str(e)[:300]}')
             want = [[x, i + 1] for i, x in enumerate(xs)]
+            if case.get('pre') is not None:
+                want = [[x, calls.get(x, [None])[0]] for x in xs]
             if sum(len(v) for v in calls.values()) != n:
                 raise Violation('eager-call-count', f'{desc}\nupstream calls at construction {calls}')
             targets = [ds]
@@ -148,6 +156,9 @@ def check(case):
 
         last = []
         short_computed = set()
+        latched = set()       # targets that had a miss while memory was short: they never cache again
+        maybe_cached = set()  # values computed at least once under conditions that allow caching
+        DIRECT = ('idx', 'neg', 'np64', 'np32', 'key', 'iter', 'items', 'partial')
         for step in case['steps']:
             kind = step[0]
             if kind == 'mut':
@@ -172,6 +183,8 @@ def check(case):
                 continue
             _, path, pos, tgt = step
             d = targets[tgt % len(targets)]
+            t_id = tgt % len(targets)
+            was_latched = t_id in latched
             p = pos % n
             if mem.available <= thr:
                 ever_short = True  # a miss during this access would not be cached
@@ -221,6 +234,22 @@ def check(case):
             except Exception as e:
                 raise Violation(f'access-raised|{path}', f'{desc}\nstep {step} raised {type(e).__name__}: {e}')
             after_access()
+            computed_now = {x for x, v in calls.items() if len(v) > calls_before.get(x, 0)}
+            if not case.get('eager'):
+                if was_latched and path in ('idx', 'neg', 'np64', 'np32', 'key'):
+                    # "once the threshold is crossed no further examples are cached": this dataset object met the
+                    # shortage on a miss before; a position whose every computation so far happened under conditions
+                    # that forbid caching cannot be served from the cache now - also after memory recovered
+                    x = xs[p]
+                    if x not in maybe_cached and calls_before.get(x, 0) > 0 and x not in computed_now:
+                        raise Violation(f'cached-after-threshold-crossed|{path}',
+                                        f'{desc}\nposition {p} was only ever computed while memory was short or '
+                                        f'through a dataset object that had already met the shortage, yet this read '
+                                        f'was served without recomputation: calls {calls.get(x)}')
+                if low_during and computed_now and path in DIRECT:
+                    latched.add(t_id)
+                if not low_during and not (was_latched and path in DIRECT):
+                    maybe_cached |= computed_now
             if low_during and not case.get('eager') and path in ('idx', 'neg', 'np64', 'np32', 'key'):
                 # "once the threshold is crossed no further examples are cached": a position that was not cached
                 # before and is read while memory is short must have been computed for THIS access
@@ -253,6 +282,8 @@ def st_case(draw):
         case['keep'] = None
         case['available'] = 60
         case['upstream'] = draw(st.sampled_from([None, 'tail', 'rev', 'sortrev', 'filt', 'dupcat']))
+        if case['upstream'] not in ('filt', 'dupcat') and draw(st.booleans()):
+            case['pre'] = draw(st.lists(st.integers(0, 5), min_size=0, max_size=4))
     else:
         case['upstream'] = draw(st.sampled_from([None, None, 'tail', 'rev', 'sortrev']))
     steps = []
@@ -295,6 +326,29 @@ def run_shard(tier, idx, nshards, rec, known):
                     out.violation = (case, v.sig, v.detail)
                     return [out]
                 rec.case(case, nt, ['enumerated', f'history-len:{ln}'], size=ln)
+
+    # memory falls below the threshold, a miss meets the shortage, memory recovers: every history of length <= 2
+    # over the direct accesses afterwards (the latch must hold)
+    acc = [['acc', 'idx', 0, 0], ['acc', 'idx', 1, 0], ['acc', 'neg', 1, 0], ['acc', 'key', 0, 0], ['acc', 'iter', 0, 0],
+           ['acc', 'np32', 2, 0]]
+    k = 0
+    for first in acc[:3]:
+        for ln in (1, 2, 3):
+            for hist in itertools.product(acc, repeat=ln):
+                k += 1
+                if k % nshards != idx:
+                    continue
+                case = {'n': 3, 'container': 'dict', 'keep': '1 GB', 'available': 60, 'eager': False,
+                        'steps': [['mem', 0.1], list(first), ['mem', 60]] + [list(s) for s in hist]}
+                try:
+                    check(case)
+                except Violation as v:
+                    if known.match(v.sig):
+                        rec.known_hits[v.sig] += 1
+                        continue
+                    out.violation = (case, v.sig, v.detail)
+                    return [out]
+                rec.case(case, True, ['enumerated', 'shortage-then-recovery'], size=ln + 3)
 
     def one(case):
         nt = check(case)
